@@ -18,7 +18,8 @@ import (
 type Clause struct {
 	Text string
 	Expr ast.Expr
-	Src  string // file:line
+	Src  string   // file:line
+	Cond ast.Expr // modifies ... when <cond>
 }
 
 type LoopSpec struct {
@@ -651,7 +652,24 @@ func (db *ContractDB) LoadFile(path, pkgPath string, trusted bool) error {
 }
 
 func parseModifies(tx, src string) (*Clause, error) {
-	// forms: p.f   p.*   s[..]   s[lo:hi]   *p   m[..]   ghost name
+	// forms: p.f   p.*   s[..]   s[lo:hi]   *p   m[..]   ghost name   (optionally: ... when cond)
+	var cond ast.Expr
+	if i := strings.Index(tx, " when "); i >= 0 {
+		cl, err := parseClause(strings.TrimSpace(tx[i+6:]), src)
+		if err != nil {
+			return nil, err
+		}
+		cond = cl.Expr
+		tx = strings.TrimSpace(tx[:i])
+	}
+	if cond != nil {
+		c, err := parseModifies(tx, src)
+		if err != nil {
+			return nil, err
+		}
+		c.Cond = cond
+		return c, nil
+	}
 	t := strings.ReplaceAll(tx, "[..]", "[:]")
 	if strings.HasSuffix(t, ".*") {
 		t = "allfields(" + strings.TrimSuffix(t, ".*") + ")"
